@@ -32,7 +32,11 @@ def design_runs(chk):
     if r["violated"]:
         chk.design_violation(r, "ResolutionLimit", {"class": "design"})
     got = {}
-    for cfg in ("ResolutionLimit_tight.cfg", "ResolutionLimit_asWritten.cfg"):
+    r2 = vlib.tlc_must_pass("ResolutionLimit", "ResolutionLimit_fold.cfg", timeout=1200)
+    chk.add_tlc(r2, "ResolutionLimit folded window (W > q), exhaustive")
+    if r2["violated"]:
+        chk.design_violation(r2, "ResolutionLimit", {"class": "design-fold"})
+    for cfg in ("ResolutionLimit_tight.cfg", "ResolutionLimit_asWritten.cfg", "ResolutionLimit_foldDropped.cfg"):
         w = vlib.tlc("ResolutionLimit", cfg, timeout=600)
         if w["violated"] != "ErrBound":
             raise vlib.Machinery("vacuity control %s should violate ErrBound, got %s / %s" % (cfg, w["violated"], w["error"]))
@@ -74,8 +78,13 @@ def concretise(cell, tid, rng):
         wid = min(math.hypot(x, L) - x for x in q)
     elif cell["cls"] == "slitW":
         W = rel * q0
+        if rel > 1:
+            # q < W: the window of |q+v| is folded at zero.  The first data point is tiny so that the
+            # library's low-q cutoff (0.02*min(q)) removes a negligible part of [0, W-q].
+            q = [0.001 * q0, 0.4 * q0, q0, 1.5 * q0, 2.25 * q0]
+            job["q"] = q
         job.update({"L": 0.0, "W": W})
-        lo, hi, wid = q[0] - W, q[-1] + W, W
+        lo, hi, wid = max(0.0, q[0] - W), q[-1] + W, W
     else:
         L, W = rel * q0, rel2 * q0
         job.update({"L": L, "W": W})
@@ -83,6 +92,8 @@ def concretise(cell, tid, rng):
         wid = min([W] + [math.hypot(x + W, L) - (x + W) for x in q])
     h1 = float(cell["rungs"][0]) * wid
     off = rng.random()
+    if cell["cls"] == "slitW" and rel > 1:
+        off = 0.05 + 0.9 * off           # keep the first positive grid point clear of the cutoff
     job["rungs"] = [{"h": h1 / (2 ** k), "lo": lo, "hi": hi, "off": off} for k in range(len(cell["rungs"]))]
     return job
 
@@ -198,7 +209,7 @@ def run(chk, args):
     else:
         by = {}
         for c in lad:
-            by.setdefault(c["cls"], []).append(c)
+            by.setdefault(c["cls"] + ("-folded" if float(c["rel"]) > 1 and c["cls"] == "slitW" else ""), []).append(c)
         for cls in sorted(by):
             g = by[cls]
             rng.shuffle(g)
@@ -219,7 +230,9 @@ def run(chk, args):
     chk.assumptions += [
         "test intensities are polynomials of degree <= 4 (2-D: even quadratic forms plus a constant): a subset of the "
         "property's smooth family for which the documented integrals have closed forms",
-        "windows stay on the positive axis (sigma <= 0.3 q, W <= 0.6 q), so |q| plays no role",
+        "pinhole and length+width windows stay on the positive axis (sigma <= 0.3 q, W <= 0.6 q); the width-only "
+        "slit is also driven with W = 1.2 q0 and 2 q0 over data points below and above W (folded integrand |q+v|), "
+        "with a first data point of 0.001 q0 so that the library's low-q cutoff 0.02*min(q) removes a negligible part",
         "length+width: the expected value is the documented (2*30+1)-point rule in the width direction, which is "
         "within 0.5% of scale(f) of the double integral (checked for even polynomials) but does not converge to it",
         "bounds are 5x the worst error measured on the tree with the C03 repairs applied (constants and "
